@@ -18,7 +18,7 @@ from vf.ref import c42_filter as ref
 
 PROPERTY = "C42"
 LEVEL = "exploration"
-BUDGET = {"quick": (1500, 14), "thorough": (40_000, 200)}
+BUDGET = {"quick": (1500, 12), "thorough": (40_000, 200)}
 WORKERS = {"quick": 4, "thorough": 16}
 REQUIRED = ["accepted", "verdict"]
 ENGINE = "direct"
